@@ -41,6 +41,7 @@ func (pr *Program) VerifyFunc(fi *FuncInfo) (rep *FuncReport) {
 	x.propTag = c.Prop()
 	x.fnTag = pr.fnTagOf(fi)
 	x.nopanicMode = c.NoPanic
+	x.pruneMode = c.Prune
 	x.selfFn = fi
 	defer func() {
 		if r := recover(); r != nil {
